@@ -150,3 +150,70 @@ Proof.
     pose proof (marshal_struct_tokentype lit_fields value tk Kt2 Kns eq_refl Htk) as Ht.
     unfold marshal_struct in *. cbn [content_shape]. rewrite Ht, C, Hc, Hs. reflexivity.
 Qed.
+
+(* ------------------------------------------------------------------------------------ *)
+(* the dynamic reading of tags_check: for EVERY value a struct of the regenerated tag table may
+   hold, the JSON object encoding/json writes for it carries every field the JDoc Exchange shape
+   requires of that entity (and a schema node never carries the field of the other kind) *)
+Fixpoint nodup_names (l : list string) : bool :=
+  match l with
+  | [] => true
+  | x :: r => negb (existsb (String.eqb x) r) && nodup_names r
+  end.
+
+Lemma nodup_names_sound l : nodup_names l = true -> NoDup l.
+Proof.
+  induction l as [|x r IH]; cbn [nodup_names]; intros H; [constructor|].
+  apply andb_prop in H as [H1 H2]. constructor; [|exact (IH H2)].
+  intros Hin. apply negb_true_iff in H1.
+  assert (E : existsb (String.eqb x) r = true) by (apply existsb_exists; exists x; split; [exact Hin|apply String.eqb_refl]).
+  congruence.
+Qed.
+
+Lemma struct_field_names_distinct :
+  forallb (fun r => nodup_names (List.map fst (snd r))) JsonTags.json_structs = true.
+Proof. vm_compute. reflexivity. Qed.
+
+Lemma structs_with_in anchors fs : In fs (structs_with anchors) -> exists n, In (n, fs) JsonTags.json_structs.
+Proof.
+  unfold structs_with. intros H. apply in_map_iff in H as [[n fs'] [E Hin]]. cbn [snd] in E. subst fs'.
+  apply filter_In in Hin as [Hin _]. exists n. exact Hin.
+Qed.
+
+Lemma row_holds_in ok e anchors fields fs f :
+  row_holds ok (e, anchors, fields) = true -> In fs (structs_with anchors) -> In f fields -> ok fs f = true.
+Proof.
+  unfold row_holds. generalize (structs_with anchors). intros ss H Hs Hf.
+  destruct ss as [|s0 ss]; [destruct Hs|].
+  rewrite forallb_forall in H. specialize (H fs Hs). rewrite forallb_forall in H. exact (H f Hf).
+Qed.
+
+Lemma required_rows_hold : forallb (row_holds field_required) JDocShape.required_fields = true.
+Proof. vm_compute. reflexivity. Qed.
+Lemma forbidden_rows_hold : forallb (row_holds field_absent) JDocShape.forbidden_fields = true.
+Proof. vm_compute. reflexivity. Qed.
+
+Theorem every_entity_always_carries_its_required_fields :
+  forall e anchors fields fs value f,
+    In (e, anchors, fields) JDocShape.required_fields -> In fs (structs_with anchors) -> In f fields ->
+    lookup (match marshal_struct fs value with JObj o => o | _ => [] end) f = Some (value f).
+Proof.
+  intros e anchors fields fs value f Hr Hs Hf.
+  pose proof required_rows_hold as T. rewrite forallb_forall in T.
+  pose proof (row_holds_in _ _ _ _ _ _ (T _ Hr) Hs Hf) as R.
+  apply marshal_struct_has; [exact R|].
+  destruct (structs_with_in _ _ Hs) as [n Hin].
+  pose proof struct_field_names_distinct as D. rewrite forallb_forall in D.
+  exact (nodup_names_sound _ (D _ Hin)).
+Qed.
+
+Theorem no_schema_node_carries_the_other_kinds_field :
+  forall e anchors fields fs value f,
+    In (e, anchors, fields) JDocShape.forbidden_fields -> In fs (structs_with anchors) -> In f fields ->
+    lookup (match marshal_struct fs value with JObj o => o | _ => [] end) f = None.
+Proof.
+  intros e anchors fields fs value f Hr Hs Hf.
+  pose proof forbidden_rows_hold as T. rewrite forallb_forall in T.
+  pose proof (row_holds_in _ _ _ _ _ _ (T _ Hr) Hs Hf) as R.
+  apply marshal_struct_lacks. exact R.
+Qed.
